@@ -37,6 +37,7 @@ RULE = ('Tables of 1-5 columns over boolean / integer / number / string / '
         'by case hash.')
 RULE += ' ' + "Also: time forms with a fraction separated by ':' or ' ' and HH.mm.ss; metadata rewritten in place at the same path after another description was loaded from it; encoding / delimiter declared through dc:replaces beside a dialect section that lacks them; characters U+0080-U+009F; column names differing only in case."
 RULE += ' ' + 'Round 6: a third of the cases name only the CSV (findmd=True; the CSV is data.v2.csv and a sibling data.csv with all-string metadata and no rows is the decoy) and a third only the metadata, through a symbolic link beside the CSV whose target lies in another directory beside a decoy data.csv.'
+RULE += ' ' + 'Round 7: the format written on the column beside a bare or an object datatype (format_on); a sixth of the tables have a column name that begins or ends with a space.'
 ASSUMPTIONS = ['empty strings are not generated (CSV cannot tell them from '
                'null); strings pandas\' default NA list would swallow are '
                'not generated (recorded finding)']
